@@ -43,7 +43,26 @@ def mk_lexicon(k, g):
 def idx(ss):
     if ss.id == '*ROOT*':
         return 0
-    return int(ss.id.rsplit('-', 1)[1])
+    try:
+        return int(ss.id.rsplit('-', 1)[1])
+    except ValueError:
+        return -1            # a synset that does not belong to the graph (e.g. contributed by an unselected extension)
+
+
+def mk_extension(k, g):
+    """an extension of lexicon g<k> that is NOT selected by the queries: it adds a hypernym edge from a node of the graph
+    to a synset of its own and one between two nodes of the graph; a Wordnet restricted to g<k> must not see either"""
+    lid = 'g%d' % k
+    n = g['n']
+    a = 1 + (k % n)
+    b = 1 + ((k // 2) % n)
+    return {'id': 'xg%d' % k, 'label': 'x', 'language': 'en', 'email': 'e', 'license': 'l', 'version': '1', 'meta': None,
+            'extends': {'id': lid, 'version': '1'}, 'entries': [],
+            'synsets': [{'id': 'xg%d-over' % k, 'ili': '', 'partOfSpeech': g['pos'][a - 1], 'meta': None},
+                        {'id': '%s-%d' % (lid, a), 'external': True,
+                         'relations': [{'target': 'xg%d-over' % k, 'relType': 'hypernym', 'meta': None}]},
+                        ] + ([{'id': '%s-%d' % (lid, b), 'external': True,
+                               'relations': [{'target': '%s-%d' % (lid, a), 'relType': 'hypernym', 'meta': None}]}] if b != a else [])}
 
 
 def call(f, *a, **kw):
@@ -70,6 +89,9 @@ for db in payload['dbs']:
     with iutil.FreshDB():
         res = {'lmf_version': '1.3', 'lexicons': [mk_lexicon(g['k'], g) for g in db]}
         wn.add_lexical_resource(res, progress_handler=None)
+        exts = [mk_extension(g['k'], g) for g in db if g['k'] % 3 == 0]
+        if exts:
+            wn.add_lexical_resource({'lmf_version': '1.1', 'lexicons': exts}, progress_handler=None)
         for g in db:
             lid = 'g%d' % g['k']
             w = wn.Wordnet(lid + ':1', expand='')
